@@ -3,85 +3,7 @@ use vstd::prelude::*;
 #[verifier::external_body]
 pub fn fmt_opaque() -> String { unimplemented!() }
 
-// ---- TRUSTED: the dependency types this code reads and builds, with the fields it uses ----
-#[verifier::external_body]
-pub struct OpaqueV { _p: u8 }
-/// serde_json::Value
-pub enum Value { Null, Bool(bool), Number(OpaqueV), String(String), Array(OpaqueV), Object(OpaqueV) }
-impl Clone for Value { #[verifier::external_body] fn clone(&self) -> (r: Value) ensures r == *self { unimplemented!() } }
-/// schemars::schema::*
-pub enum InstanceType { Null, Boolean, Object, Array, Number, String, Integer }
-pub enum SingleOrVec<T> { Single(Box<T>), Vec(Vec<T>) }
-pub struct Metadata {
-    pub id: Option<String>, pub title: Option<String>, pub description: Option<String>, pub default: Option<Value>,
-    pub deprecated: bool, pub read_only: bool, pub write_only: bool, pub examples: Vec<Value>,
-}
-#[verifier::external_body] pub struct SubschemaValidation { _p: u8 }
-#[verifier::external_body] pub struct NumberValidation { _p: u8 }
-#[verifier::external_body] pub struct StringValidation { _p: u8 }
-#[verifier::external_body] pub struct ArrayValidation { _p: u8 }
-#[verifier::external_body] pub struct ObjectValidation { _p: u8 }
-/// schemars::Map<String, Value> (extensions): only lookups by key and the "x-" filter are used
-#[verifier::external_body]
-pub struct ExtMap { _p: u8 }
-pub uninterp spec fn ext_get(m: ExtMap, key: Seq<char>) -> Option<Value>;
-impl ExtMap {
-    #[verifier::external_body]
-    pub fn get(&self, key: &str) -> (r: Option<&Value>)
-        ensures (r is Some) == (ext_get(*self, key@) is Some), r is Some ==> *r->Some_0 == ext_get(*self, key@)->Some_0 { unimplemented!() }
-}
-pub struct SchemaObject {
-    pub metadata: Option<Box<Metadata>>,
-    pub instance_type: Option<SingleOrVec<InstanceType>>,
-    pub format: Option<String>,
-    pub enum_values: Option<Vec<Value>>,
-    pub const_value: Option<Value>,
-    pub subschemas: Option<Box<SubschemaValidation>>,
-    pub number: Option<Box<NumberValidation>>,
-    pub string: Option<Box<StringValidation>>,
-    pub array: Option<Box<ArrayValidation>>,
-    pub object: Option<Box<ObjectValidation>>,
-    pub reference: Option<String>,
-    pub extensions: ExtMap,
-}
-pub enum JSchema { Bool(bool), Object(SchemaObject) }
-/// openapiv3::*
-#[verifier::external_body]
-pub struct OExtMap { _p: u8 }
-/// the entries of the OpenAPI extension map, as a function of key
-pub uninterp spec fn oext_get(m: OExtMap, key: Seq<char>) -> Option<Value>;
-pub uninterp spec fn starts_with_x(key: Seq<char>) -> bool;
-pub enum ReferenceOr<T> { Reference { reference: String }, Item(T) }
-pub struct SchemaData {
-    pub nullable: bool, pub read_only: bool, pub write_only: bool, pub deprecated: bool,
-    pub external_docs: Option<OpaqueV>, pub example: Option<Value>, pub title: Option<String>, pub description: Option<String>,
-    pub discriminator: Option<OpaqueV>, pub default: Option<Value>, pub extensions: OExtMap,
-}
-pub open spec fn empty_data(d: SchemaData) -> bool {
-    !d.nullable && !d.read_only && !d.write_only && !d.deprecated && d.external_docs is None && d.example is None
-    && d.title is None && d.description is None && d.discriminator is None && d.default is None
-    && forall|k: Seq<char>| oext_get(d.extensions, k) is None
-}
-impl Default for SchemaData {
-    #[verifier::external_body]
-    fn default() -> (r: SchemaData) ensures empty_data(r) { unimplemented!() }
-}
-#[verifier::external_body] pub struct AnySchema { _p: u8 }
-pub uninterp spec fn any_default() -> AnySchema;
-impl Default for AnySchema { #[verifier::external_body] fn default() -> (r: AnySchema) ensures r == any_default() { unimplemented!() } }
-pub struct StringType { pub format: Option<OpaqueV>, pub pattern: Option<String>, pub enumeration: Vec<Option<String>>, pub min_length: Option<usize>, pub max_length: Option<usize> }
-impl Default for StringType {
-    #[verifier::external_body]
-    fn default() -> (r: StringType) ensures r.format is None, r.pattern is None, r.enumeration@.len() == 0, r.min_length is None, r.max_length is None { unimplemented!() }
-}
-pub struct BooleanType { pub enumeration: Vec<Option<bool>> }
-pub enum Type { String(StringType), Number(OpaqueV), Integer(OpaqueV), Object(OpaqueV), Array(OpaqueV), Boolean(BooleanType) }
-pub enum SchemaKind {
-    Type(Type), OneOf { one_of: Vec<ReferenceOr<OSchema>> }, AllOf { all_of: Vec<ReferenceOr<OSchema>> },
-    AnyOf { any_of: Vec<ReferenceOr<OSchema>> }, Not { not: Box<ReferenceOr<OSchema>> }, Any(AnySchema),
-}
-pub struct OSchema { pub schema_data: SchemaData, pub schema_kind: SchemaKind }
-
+//@ include ../_common/prelude_schema.rs
 // ---- TRUSTED: the per-kind converters (schema_util.rs; checked on the real crate by Kani unit K5) as uninterpreted
 // functions of their arguments ----
 pub uninterp spec fn conv_object(o: Option<Box<ObjectValidation>>) -> SchemaKind;
